@@ -68,10 +68,14 @@ pub fn run(ctx: &Ctx) -> Outcome {
         let n_ops = w.n_ops();
         // quick tier, large blocks: shorter prefix histories (the interleavings explored after the clone are the same)
         let hmax = if light(cfg, tier) > 0 { 1 } else { tier.pick(2, 3) };
-        let h1s = histories(n_ops, hmax);
-        let h23 = histories(n_ops, tier.pick(2, 2));
         let label = w.label();
         let probe_op = 0usize;
+        // pass 0: base alphabet to the full depth; pass 1: extended alphabet (further call forms), one operation per phase
+        let n_ext = w.n_ops_ext();
+        for pass in 0..2 {
+        let h1s = if pass == 0 { histories(n_ops, hmax) } else { histories(n_ext, 1) };
+        let h23 = if pass == 0 { histories(n_ops, tier.pick(2, 2)) } else { histories(n_ext, tier.pick(1, 2)) };
+        let is_base = |h: &Vec<usize>| h.iter().all(|&o| o < n_ops);
         for h1 in &h1s {
             for h2 in &h23 {
                 // expected transcript of the original: fresh replay of h1;h2;probe (the h2 + probe part)
@@ -90,6 +94,9 @@ pub fn run(ctx: &Ctx) -> Outcome {
                 });
                 rep.outcome(&exp2.concat());
                 for h3 in &h23 {
+                    if pass == 1 && is_base(h1) && is_base(h2) && is_base(h3) {
+                        continue;
+                    }
                     let mut full3 = h1.clone();
                     full3.extend(h3);
                     let Ok(exp3) = caught(&|| Ok(solo(cfg, &w, &keys[0], &iv, &data, &full3))) else { continue };
@@ -154,7 +161,8 @@ pub fn run(ctx: &Ctx) -> Outcome {
                 }
             }
         }
-        rep.sample(case_json(vec![("type", w.ty().into()), ("clone", w.clonable().into()), ("ops", J::Arr((0..n_ops).map(|o| w.op_name(cfg, o).into()).collect())), ("h1_max", hmax.into()), ("h2_h3_max", 2usize.into()), ("example", "h1=[0,1]; clone; interleaving [orig:2, clone:0, orig:1]".into())]));
+        }
+        rep.sample(case_json(vec![("type", w.ty().into()), ("clone", w.clonable().into()), ("ops", J::Arr((0..n_ext).map(|o| w.op_name(cfg, o).into()).collect())), ("h1_max", hmax.into()), ("h2_h3_max", 2usize.into()), ("example", "h1=[0,1]; clone; interleaving [orig:2, clone:0, orig:1]".into())]));
         rep.finish()
     });
     // ciphertext-stealing types: a clone (taken, original dropped) behaves like the original
